@@ -270,6 +270,20 @@ def expected_trace(k, n_paths, n_times, init_state, validation, lazy_init, fwd_p
     return tr
 
 
+def loss_of_pl(criterion, pl):
+    """The criterion of a profit-and-loss tensor.  A hedging loss (pfhedge HedgeLoss) is a function of the P&L
+    distribution alone: ``criterion(pl)``.  A plain torch loss with a mandatory target (MSELoss, ...) measures the
+    distance of the portfolio from the payoff, i.e. of the P&L from zero: ``criterion(pl, 0)``.
+    Exactness: every built-in loss starts with ``input - target``; here target is the python float 0.0 (or a zero
+    tensor) and ``x - 0`` is exact in IEEE arithmetic, so the value and the gradient are bitwise those of
+    ``criterion(portfolio, payoff)`` whenever that is the criterion of ``portfolio - payoff``."""
+    import torch
+    from pfhedge.nn import HedgeLoss
+    if isinstance(criterion, HedgeLoss):
+        return criterion(pl)
+    return criterion(pl, torch.zeros_like(pl))
+
+
 def reference_fit(hedger, derivative, hedge, make_optimizer, k, n_paths, n_times, init_state,
                   validation, on_grad=None, on_step=None, payoff_of=None, portfolio_of=None):
     """The explicit training loop of the property: k times (fresh batch of n_paths paths from
@@ -279,7 +293,10 @@ def reference_fit(hedger, derivative, hedge, make_optimizer, k, n_paths, n_times
     history entry.  The liability is the CONTRACTUAL payoff ``payoff_of()`` (the harness passes its own model of
     the contract: base payoff folded through every clause), never a shortcut of the library; the hedging
     portfolio ``portfolio_of()`` is the self-financing wealth of the hedge the model computes, priced and charged with the
-    harness' own list of instruments and cost rates.  ``make_optimizer()`` builds (or returns) the optimiser; it is called once,
+    harness' own list of instruments and cost rates.  The loss of a batch is the criterion APPLIED TO THE P&L TENSOR
+    ``pl = portfolio - payoff`` (one argument; see ``loss_of_pl``), as fit() documents, never ``criterion(portfolio, payoff)``:
+    a criterion whose two-argument form is not the criterion of the difference then diverges from this loop.
+    ``make_optimizer()`` builds (or returns) the optimiser; it is called once,
     before the first epoch, and also when k == 0."""
     import torch
     if payoff_of is None:
@@ -294,7 +311,7 @@ def reference_fit(hedger, derivative, hedge, make_optimizer, k, n_paths, n_times
         derivative.simulate(n_paths=n_paths, init_state=init_state)
         with torch.enable_grad():
             portfolio = portfolio_of()
-            loss = hedger.criterion(portfolio, payoff_of())
+            loss = loss_of_pl(hedger.criterion, portfolio - payoff_of())
         loss.backward()
         if on_grad is not None:
             on_grad(e, opt)
@@ -308,6 +325,6 @@ def reference_fit(hedger, derivative, hedge, make_optimizer, k, n_paths, n_times
                 for _ in range(n_times):
                     derivative.simulate(n_paths=n_paths, init_state=init_state)
                     portfolio = portfolio_of()
-                    vals.append(float(hedger.criterion(portfolio, payoff_of())))
+                    vals.append(float(loss_of_pl(hedger.criterion, portfolio - payoff_of())))
             history.append(vals)
     return (history if validation else None), opt
